@@ -28,6 +28,8 @@ def instsAfter (insts : List (Nat × Attrs)) : List Ev → List (Nat × Attrs)
   | [] => insts
   | .create i a :: es => instsAfter (setInst insts i a) es
   | .use _ :: es => instsAfter insts es
+  | .mutate i a :: es => instsAfter (if (lookupInst insts i).isSome then setInst insts i a else insts) es
+  | .discard i :: es => instsAfter (dropInst insts i) es
 
 theorem runEvs_repaired_world (cls : Attrs) (w : World) (evs : List Ev) :
     (runEvs .repaired cls w evs).1 = { job := w.job, insts := instsAfter w.insts evs } := by
@@ -36,6 +38,12 @@ theorem runEvs_repaired_world (cls : Attrs) (w : World) (evs : List Ev) :
   | cons e es ih =>
     cases e with
     | create i a => simp only [runEvs, stepEv, instsAfter]; rw [ih]
+    | discard i => simp only [runEvs, stepEv, instsAfter]; rw [ih]
+    | mutate i a =>
+      simp only [runEvs, stepEv, instsAfter]
+      cases lookupInst w.insts i with
+      | none => simp only [Option.isSome_none, Bool.false_eq_true, if_false]; rw [ih]
+      | some a' => simp only [Option.isSome_some, if_true]; rw [ih]
     | use i =>
       simp only [runEvs, stepEv, instsAfter]
       cases lookupInst w.insts i with
@@ -49,9 +57,10 @@ theorem runEvs_append (v : Variant) (cls : Attrs) (w : World) (e1 e2 : List Ev) 
   | cons e es ih => simp only [List.cons_append, runEvs]; rw [ih]
 
 /-- "reflects that driver instance's executable, processor count and environment …, irrespective of which
-other drivers exist or were used before": after ANY history of creations and uses, using driver `i` gives
-exactly `resolve job cls a`, where `a` are the attributes `i` was (last) created with — a function of the job
-declaration, the class and that instance alone. -/
+other drivers exist or were used before": after ANY history of creations, attribute changes, uses and disposals of
+drivers, using driver `i` gives exactly `resolve job cls a`, where `a` are the attributes `i` has at that moment
+(as created or as last assigned) — a function of the job declaration, the class and that instance's current
+attributes alone; nothing remembered from an earlier use of this or of any other (live or discarded) driver. -/
 theorem bind_history_independent (job cls : Attrs) (hist : List Ev) (i : Nat) (a : Attrs)
     (hi : lookupInst (instsAfter [] hist) i = some a) :
     (runEvs .repaired cls { job := job, insts := [] } (hist ++ [.use i])).2.getLast? =
@@ -85,6 +94,12 @@ def d33b : Attrs := { executable := some "xtb-b", nprocs := some 8, envars := [(
 
 example : (runEvs .repaired {} { job := {}, insts := [] } [.create 0 d33a, .create 1 d33b, .use 0, .use 1]).2 =
     [none, none, some ⟨some "xtb-a", 2, 1000, [("OMP", "2")]⟩, some ⟨some "xtb-b", 8, 1000, [("MKL", "8")]⟩] := by
+  decide
+
+example : (runEvs .repaired {} { job := {}, insts := [] }
+      [.create 0 d33a, .use 0, .discard 0, .create 1 d33b, .use 1, .mutate 1 d33a, .use 1, .use 0]).2 =
+    [none, some ⟨some "xtb-a", 2, 1000, [("OMP", "2")]⟩, none, none, some ⟨some "xtb-b", 8, 1000, [("MKL", "8")]⟩, none,
+     some ⟨some "xtb-a", 2, 1000, [("OMP", "2")]⟩, none] := by
   decide
 
 /-- D33 (the pinned commit): the second driver prepares inputs with the first driver's executable and
@@ -307,6 +322,28 @@ theorem exit_zero_iff (hne : jobCmds inp script ≠ []) (hc : Clean (jobCmds inp
       rw [runJob_ran] at hcf
       simp only [hcf, exitcodeOf]
 
+/-- a command killed by a signal (`subprocess` reports `-n`) is a failing command like any other: nothing after it is
+started, the runner exits non-zero and the JobOutput records `-n`. -/
+theorem signalled_command_fails (hne : jobCmds inp script ≠ []) (hc : Clean (jobCmds inp script))
+    (c : Option String × Outcome) (hlast : (runJob .repaired hash baseEnv scratch td inp script).ran.getLast? = some c)
+    (hneg : c.2.code < 0) :
+    (runJob .repaired hash baseEnv scratch td inp script).exit ≠ 0 ∧
+    ∃ o, (runJob .repaired hash baseEnv scratch td inp script).output = some o ∧ o.exitcode = c.2.code := by
+  obtain ⟨⟨hex, _⟩, o, ho, hcode, hfail⟩ := exit_zero_iff hash baseEnv scratch td inp script hne hc
+  have hf : failedCode (runJob .repaired hash baseEnv scratch td inp script).ran = some c.2.code := by
+    unfold failedCode
+    rw [hlast]
+    have : c.2.code ≠ 0 := by omega
+    simp [this]
+  refine ⟨fun h0 => ?_, o, ho, hfail _ hf⟩
+  have hall := (hex h0).1
+  have hran : (runJob .repaired hash baseEnv scratch td inp script).ran = jobCmds inp script := by
+    rw [runJob_ran]; exact exec_all_ok_ran_all _ _ _ hall
+  have hmem : c ∈ jobCmds inp script := by
+    rw [← hran]; exact List.mem_of_getLast? hlast
+  have := hall c hmem
+  omega
+
 /-- "with the input's hash" -/
 theorem output_hash_is_input_hash (v : Variant) (o : JobOutput)
     (h : (runJob v hash baseEnv scratch td inp script).output = some o) : o.inputHash = hash inp := by
@@ -337,6 +374,17 @@ def demoInput : JobInput :=
   { jid := "j", commands := [("sh -c A", some "a"), ("sh -c B", none), ("sh -c C", some "c")],
     files := [("in.txt", [116, 10]), ("b.bin", [0, 255])],
     returnFiles := some ["r.bin", "copy.txt", "never.txt"], envars := [("A", "1")] }
+
+def sigScript : List Outcome :=
+  [ { effects := [.write "r.bin" [1]], out := [104], err := [], code := -9 },
+    { effects := [.write "never.txt" [1]], out := [], err := [], code := 0 },
+    { effects := [], out := [], err := [], code := 0 } ]
+
+example :
+    let r := runJob .repaired (fun _ => "H") [] [] "j__x" demoInput sigScript
+    r.ran.length = 1 ∧ r.exit = 1 ∧ (r.output.map (·.exitcode)) = some (-9) ∧
+    (r.output.map (·.files)) = some [("r.bin", [1])] := by
+  decide
 
 def demoScript : List Outcome :=
   [ { effects := [.write "r.bin" [65, 0, 255]], out := [104, 105, 10], err := [101, 10], code := 0 },
